@@ -4,6 +4,8 @@ import (
 	"fmt"
 	"reflect"
 
+	"github.com/freeconf/yang/fc"
+
 	"github.com/freeconf/yang/meta"
 	"github.com/freeconf/yang/node"
 	"github.com/freeconf/yang/val"
@@ -104,6 +106,10 @@ func (def *mapAsList) getByRow(r node.ListRequest) (reflect.Value, []reflect.Val
 func (def *mapAsList) newListItem(r node.ListRequest) (reflect.Value, error) {
 	var empty reflect.Value
 	t := def.src.Type().Elem()
+	if !isKeyValid(r.Key) {
+		// a Go map files entries under their key: a list without one needs a slice
+		return empty, fmt.Errorf("%w. list '%s' has no key, it cannot be kept in a map", fc.BadRequestError, r.Meta.Ident())
+	}
 	itemVal, err := def.ref.NewObject(t, r.Meta, true)
 	if err != nil {
 		return empty, err
